@@ -443,6 +443,7 @@ package termincommittee
 //@   requires TicOK(tic)
 //@   requires blockHeight == tic.State.height
 //@   modifies @TIC, ghost:countedC
+//@   assert before call sendConsensusMessage [O9.the-lock-is-at-the-newly-prepared-view-when-its-commit-is-sent] tic.preparedLocally != nil && tic.preparedLocally.isPreparedLocally && tic.preparedLocally.latestView == view
 //@   assert before call sendConsensusMessage [O10.4.prepared-certificate] isPrepared && len(quorumIds) == len(PIds(tic.storage, pver, blockHeight, view, blockHash)) + 1
 //@     | && (forall i :: 0 <= i && i < len(quorumIds) - 1 ==> quorumIds[i] == PIds(tic.storage, pver, blockHeight, view, blockHash)[i])
 
